@@ -49,12 +49,37 @@ theorem checkAndUpdate_spec : ∀ (l : List (Nat × Nat)) {s s' : St} {u : Nat},
     · simp only [ho, if_false] at h2
       exact ih h2
 
+theorem updateEnergyAndProgress_spec {s s' : St} {u : Nat} (h : updateEnergyAndProgress s u = some s') :
+    ∃ g, s' = { s with w := g } := by
+  simp only [updateEnergyAndProgress, Option.bind_eq_bind, Option.bind_eq_some_iff, Option.pure_def,
+    Option.some.injEq] at h
+  obtain ⟨_, _, g, _, rfl⟩ := h
+  exact ⟨g, rfl⟩
+
+/-- no boosted-yields config: `claimBoostedYields` IS `updateEnergyAndProgress` with reward 0
+    (the repaired `None` branch of `claim_boosted_yields_rewards`, finding F6). -/
+theorem claimBoostedYields_none {s : St} (u : Nat) (hc : s.b.cfg = none) :
+    claimBoostedYields s u = (updateEnergyAndProgress s u).map fun s' => (s', 0) := by
+  unfold claimBoostedYields
+  rw [hc]
+
+theorem claimBoostedYields_none_spec {s s' : St} {u r : Nat} (hc : s.b.cfg = none)
+    (h : claimBoostedYields s u = some (s', r)) :
+    r = 0 ∧ updateEnergyAndProgress s u = some s' := by
+  rw [claimBoostedYields_none u hc, Option.map_eq_some_iff] at h
+  obtain ⟨x, hx, he⟩ := h
+  simp only [Prod.mk.injEq] at he
+  exact ⟨he.2.symm, he.1 ▸ hx⟩
+
 theorem claimBoostedYields_struct {s s' : St} {u r : Nat} (h : claimBoostedYields s u = some (s', r)) :
     ∃ w' b', s' = { s with w := w', b := b' } := by
   unfold claimBoostedYields at h
   split at h
-  · simp only [Option.some.injEq, Prod.mk.injEq] at h
-    exact ⟨s.w, s.b, h.1 ▸ rfl⟩
+  · rw [Option.map_eq_some_iff] at h
+    obtain ⟨x, hx, he⟩ := h
+    simp only [Prod.mk.injEq] at he
+    obtain ⟨g, rfl⟩ := updateEnergyAndProgress_spec hx
+    exact ⟨g, s.b, he.1 ▸ rfl⟩
   · simp only [Option.bind_eq_bind, Option.bind_eq_some_iff, Option.pure_def, Option.some.injEq,
       Prod.mk.injEq] at h
     obtain ⟨_, _, _, _, x, _, rfl, _⟩ := h
@@ -67,13 +92,6 @@ theorem setFarmSupplyWeek_spec {s s' : St} {v : Nat} (h : setFarmSupplyWeek s v 
     Option.some.injEq] at h
   obtain ⟨W, hW, rfl⟩ := h
   exact ⟨W, hW, rfl⟩
-
-theorem updateEnergyAndProgress_spec {s s' : St} {u : Nat} (h : updateEnergyAndProgress s u = some s') :
-    ∃ g, s' = { s with w := g } := by
-  simp only [updateEnergyAndProgress, Option.bind_eq_bind, Option.bind_eq_some_iff, Option.pure_def,
-    Option.some.injEq] at h
-  obtain ⟨_, _, g, _, rfl⟩ := h
-  exact ⟨g, rfl⟩
 
 theorem lockVirtual_spec {s s' : St} {u a : Nat} (h : lockVirtual s u a = some s') :
     ∃ e, s' = { s with energy := e } := by
